@@ -142,6 +142,99 @@ def run(ck, w):
     else:
         ck.fail(o, fh.name, "no hunk write", "no Transport::write in finish_hunk")
 
+    # ---- 2c/2d. consecutive numbering and the per-10000 subdirectory -------------------------------------
+    o = ck.ob("C13.2c", "hunks are numbered consecutively from zero: the hunk path is hunk_relpath(self.sequence); sequence starts at 0 and is "
+                        "incremented by exactly one, only in finish_hunk, after the hunk write succeeded")
+    problems = []
+    hr = [e for e in fh.events if e.bb in fh.live and e.name == "index::hunk_relpath"]
+    if not hr or not any(any(x[0] in ("param", "upvar") and "sequence" in x[2] for x in flow.origins_x(lib, fh, e.args[0])) for e in hr):
+        problems.append("the hunk path is not hunk_relpath(self.sequence)")
+    if cr:
+        psrc = flow.origins_x(lib, fh, cr[0].args[1])
+        if "index::hunk_relpath" not in flow.origin_calls(psrc):
+            problems.append("the written path does not come from hunk_relpath")
+    seq_writers = {}
+    for b in rules.user_bodies(lib):
+        if rules.is_derive_body(b) or "IndexWriter" not in (b.self_ty or ""):
+            continue
+        for bb, j, st in b.all_assigns():
+            if any(x.startswith("f:") and x.split(":", 2)[2] == "sequence" for x in st["pl"]["p"]):
+                seq_writers.setdefault(b.root, []).append((b, bb, st))
+    if set(seq_writers) != {"index::write::IndexWriter::finish_hunk"}:
+        problems.append("sequence is assigned in %s" % (sorted(seq_writers) or "no function"))
+    else:
+        for b, bb, st in seq_writers["index::write::IndexWriter::finish_hunk"]:
+            if not rules.is_increment_by_one(b, st):
+                problems.append("sequence update is not += 1")
+            else:
+                edges_, hows_, missing_ = rules.success_edges_union(b, events_of(lib, b, "transport::Transport::write"))
+                if not edges_ or not b.must_pass_edges(edges_, bb):
+                    problems.append("sequence advances without a successful hunk write")
+    nw_ = w.raw("index::write::IndexWriter::new")
+    if not any((rules.field_operand(st, "sequence") or {}).get("int") == "0" for bb, j, st in rules.agg_sites(nw_, "index::write::IndexWriter")):
+        problems.append("sequence is not initialised to 0")
+    if problems:
+        for m_ in problems:
+            ck.fail(o, fh.name, m_, m_)
+    else:
+        ck.ok(o)
+    o = ck.ob("C13.2d", "the index subdirectory of a hunk is created, from the same sequence number, exactly when sequence % HUNKS_PER_SUBDIR == 0, "
+                        "before the hunk is written")
+    problems = []
+    mk = events_of(lib, fh, "transport::Transport::create_dir")
+    rems = []
+    for bb, j, st in fh.all_assigns():
+        rv = st["rv"]
+        if rv["rk"] == "binop" and rv["op"] == "Rem":
+            lhs = flow.origins_x(lib, fh, rv["ops"][0])
+            rhs = rv["ops"][1]
+            is_seq = any(x[0] in ("param", "upvar") and "sequence" in x[2] for x in lhs)
+            is_hps = (rhs.get("uneval") == "index::HUNKS_PER_SUBDIR") or rhs.get("int") == "10000" or \
+                any(x[0] == "const" and x[2] in ("index::HUNKS_PER_SUBDIR", "10000") for x in flow.origins(fh, rhs))
+            if is_seq and is_hps:
+                rems.append((bb, st["pl"]["l"]))
+    if not mk:
+        problems.append("no create_dir in finish_hunk")
+    elif not rems:
+        problems.append("the subdirectory is not created on sequence % HUNKS_PER_SUBDIR")
+    else:
+        # the remainder is compared with 0 and create_dir lies behind the `== 0` edge only
+        eq_edges = set()
+        for bb, j, st in fh.all_assigns():
+            rv = st["rv"]
+            if rv["rk"] == "binop" and rv["op"] in ("Eq", "Ne") and len(rv["ops"]) == 2:
+                ls = [flow.operand_local(x) for x in rv["ops"]]
+                zero = any(x.get("k") == "const" and x.get("int") == "0" for x in rv["ops"])
+                if zero and any(l in {r[1] for r in rems} or (l is not None and any(
+                        y[0] == "arith" and y[1] == "Rem" for y in flow.origins(fh, l))) for l in ls):
+                    eq_edges |= rules.local_bool_edges(fh, {st["pl"]["l"]}, rv["op"] == "Eq")
+        if not eq_edges:
+            problems.append("the remainder is not compared with zero")
+        else:
+            for e in mk:
+                if not fh.must_pass_edges(eq_edges, e.bb):
+                    problems.append("create_dir is not confined to sequence % HUNKS_PER_SUBDIR == 0")
+            # and every write on the == 0 side passes create_dir's success
+            for e in rules.creators_of(fh, "transport::Transport::create_dir"):
+                dsrc = flow.origins_x(lib, fh, e.args[1])
+                if "index::subdir_relpath" not in flow.origin_calls(dsrc):
+                    problems.append("the created directory is not subdir_relpath(..)")
+        sr = [e for e in fh.events if e.bb in fh.live and e.name == "index::subdir_relpath"]
+        if sr and not any(any(x[0] in ("param", "upvar") and "sequence" in x[2] for x in flow.origins_x(lib, fh, e.args[0])) for e in sr):
+            problems.append("subdir_relpath is not given self.sequence")
+        if mk and wr:
+            edges_, hows_, missing_ = rules.success_edges_union(fh, mk)
+            # on paths that create the directory, the write comes after its success
+            for w_ in wr:
+                for m_ in mk:
+                    if fh.reaches(w_.bb, m_.bb):
+                        problems.append("the hunk is written before its subdirectory is created")
+    if problems:
+        for m_ in sorted(set(problems)):
+            ck.fail(o, fh.name, m_, m_)
+    else:
+        ck.ok(o)
+
     # ---- 3. tail states the true count -------------------------------------------------------------------
     fin = w.body("backup::BackupWriter::finish")
     o = ck.ob("C13.3a", "the count given to Band::close is, by identity, the value returned by IndexWriter::finish")
